@@ -151,7 +151,7 @@ impl PosOracle for C06 {
     }
 }
 
-pub const RULE: &str = "states = every position of the bounded trees, en-passant / castling / promotion / 3-man families and children, every rank with every one of its 256 occupancy patterns, and positions with the longest possible placement text (32 men, 71 characters); each judged: Display gives six single-space separated fields; placement, side and castling fields equal the independent writer's byte for byte; clocks are integers; en-passant field = passed-over square when a legal capture exists, '-' when the last move was no double push, either otherwise; from_str(own text) == board; from_str(standard writer's text, ep square after every double push) == board; BoardBuilder Display/FromStr reproduces every square, side, rights and en-passant for the board's builder and (on every 16th judged state) for 18 variants with overridden side / en-passant file. distinct_nontrivial = judged states right after a double push or with partial castling rights";
+pub const RULE: &str = "states = every position of the bounded trees, en-passant / castling / promotion / 3-man families and children, every rank with every one of its 256 occupancy patterns, positions with the longest possible placement text (32 men, 71 characters), every curated root under every other valid rights set and side to move, and pairs of positions whose hashes agree in a truncation or in the Fibonacci-hashed high half of the key rendered back to back on one thread; each judged: Display gives six single-space separated fields; placement, side and castling fields equal the independent writer's byte for byte; clocks are integers; en-passant field = passed-over square when a legal capture exists, '-' when the last move was no double push, either otherwise; from_str(own text) == board; from_str(standard writer's text, ep square after every double push) == board; BoardBuilder Display/FromStr reproduces every square, side, rights and en-passant for the board's builder and (on every 16th judged state) for 18 variants with overridden side / en-passant file. distinct_nontrivial = judged states right after a double push or with partial castling rights";
 
 pub fn run(tier: Tier) -> i32 {
     let mut plan = standard_plan(tier, 4);
@@ -169,6 +169,8 @@ pub fn run(tier: Tier) -> i32 {
         }
     }
     plan.families.insert(0, (Box::new(crate::universe::rank_pattern_family()), 0));
+    plan.families.insert(1, (Box::new(crate::universe::state_sibling_family()), 0));
+    plan.call_order_pairs = true;
     let (run, _) = run_e1("C06", tier, COUNTERS, C06, plan, RULE, &[]);
     finish(&run, RULE)
 }
